@@ -39,7 +39,7 @@ func runC19(c *Ctx) {
 	seen := map[string]int{}
 	// each refresh outcome has its own upstream, so that a connection closed on purpose cannot take
 	// other keys' refreshes down with it (the transports would retry them: more upstream queries)
-	upOf := map[string]string{"rfok": "pipe", "rfclose": "tcp", "rfsilent": "dotp", "rftc": "dot", "rfshort": "pipe", "rfrefused": "pipe", "rfsubnets": "pipe"}
+	upOf := map[string]string{"rfhang": "pipe", "rfok": "pipe", "rfclose": "tcp", "rfsilent": "dotp", "rftc": "dot", "rfshort": "pipe", "rfrefused": "pipe", "rfsubnets": "pipe"}
 	hook := func(q *fakeup.QueryLog, d *fakeup.Directives) {
 		k := chKey(q.Name, q.Qtype, q.Qclass)
 		mu.Lock()
@@ -50,6 +50,14 @@ func runC19(c *Ctx) {
 			return
 		}
 		switch {
+		case strings.Contains(q.Name, "rfhang"):
+			// the refresh hangs for 5.8 s, longer than the entry lives; the fetch after the expiry is quick
+			// and its records live 3 s
+			if n == 2 {
+				d.Delay = 5800
+			} else if n == 3 {
+				d.TTL = 3
+			}
 		case strings.Contains(q.Name, "rfshort"):
 			// a successful refresh whose records carry a smaller TTL than what is left of the old entry
 			d.Delay = 500
@@ -103,6 +111,13 @@ func runC19(c *Ctx) {
 		// on: their upstream queries differ, their cache entry and its refresh do not)
 		for i := 0; i < 2; i++ {
 			keys = append(keys, &key{name: fmt.Sprintf("ok-n2-ttl16-rfsubnets-s%dr%dx%d.pipe.test.", i, rep, c.Seed), burst: 32, outcome: "rfsubnets", ttl: 16, hitAges: []float64{12.3}, group: "subnets"})
+		}
+		// a refresh (started at 14.5 s, pending for 5.8 s) that is still pending when its entry has expired
+		// (16 s), been fetched anew on the request path (17.2 s, 3 s of lifetime) and is hit in its last
+		// quarter again (19.6 s): the first refresh still holds the question's single flight. (When the
+		// cache clock makes one of these queries a miss or a late hit, nothing is judged for that key.)
+		for i := 0; i < 4; i++ {
+			keys = append(keys, &key{name: fmt.Sprintf("ok-n2-ttl16-rfhang-g%dr%dx%d.pipe.test.", i, rep, c.Seed), burst: 1, outcome: "rfhang", ttl: 16, hitAges: []float64{14.5, 17.2, 19.6}})
 		}
 		// a refresh that takes 4.5 s, and a second burst 3.5 s after the one that started it
 		for i := 0; i < 2; i++ {
@@ -192,7 +207,7 @@ func runC19(c *Ctx) {
 				}
 				bw.Wait()
 			}
-			if k.outcome == "rflong" || k.group == "many" || k.group == "subnets" {
+			if k.outcome == "rflong" || k.outcome == "rfhang" || k.group == "many" || k.group == "subnets" {
 				return
 			}
 			ages := []float64{13.0, 14.7, 15.4}
@@ -274,6 +289,9 @@ func runC19(c *Ctx) {
 			}
 			lat := time.Duration(r.TRecv - r.TSend)
 			age := time.Duration(r.TSend - k.first.TRecv)
+			if k.outcome == "rfhang" {
+				continue // only the upstream fetches of these keys are judged
+			}
 			if age > time.Duration(k.ttl)*time.Second-guard { // scheduling pushed this hit outside the guaranteed lifetime
 				c.Inconclusive("burst hit sent too late")
 				continue
@@ -340,10 +358,10 @@ func runC19(c *Ctx) {
 				if endI == 0 { // never answered (silent / closed): the proxy waits for its 6 s prefetch timeout or the connection error
 					if k.outcome == "rfsilent" {
 						endI = fs[i].TRecv + int64(5500*time.Millisecond)
-					} else if k.outcome == "rflong" || k.outcome == "rfmany" || k.outcome == "rfok" || k.outcome == "rfshort" || k.outcome == "rfsubnets" || k.outcome == "rfrefused" {
+					} else if k.outcome == "rfhang" || k.outcome == "rflong" || k.outcome == "rfmany" || k.outcome == "rfok" || k.outcome == "rfshort" || k.outcome == "rfsubnets" || k.outcome == "rfrefused" {
 						// the scripted delay had not elapsed when the log was read: the refresh is in flight
 						// until the reply is sent (a little less, to stay on the safe side)
-						endI = fs[i].TRecv + map[string]int64{"rflong": 4400, "rfmany": 400, "rfok": 1400, "rfshort": 400, "rfsubnets": 1400, "rfrefused": 250}[k.outcome]*int64(time.Millisecond)
+						endI = fs[i].TRecv + map[string]int64{"rfhang": 5700, "rflong": 4400, "rfmany": 400, "rfok": 1400, "rfshort": 400, "rfsubnets": 1400, "rfrefused": 250}[k.outcome]*int64(time.Millisecond)
 					} else {
 						endI = fs[i].TRecv + int64(280*time.Millisecond) // the scripted close happens 300 ms after the query arrived
 					}
